@@ -163,6 +163,12 @@ def judge_c09(case, side, res):
             v["ok"] = False; v["oracle_why"] = "a JSX-free module did not come back unchanged"
         elif res.get("oC09idem", "1") != "1":
             v["ok"] = False; v["oracle_why"] = "the second pass over the output changed it"
+        elif (case.get("stream") == "types" and res.get("jsxfree_in") == "1" and res.get("same_in", "1") != "1"
+              and case.get("truth", {}).get("prov") in ("other", "local", "none", "aliased", "namespace")):
+            # resolveType on, but no call of Vue's defineComponent (generator's ground truth) and no JSX
+            v["ok"] = False
+            v["oracle_why"] = ("a module without JSX and without a call of Vue's defineComponent (provenance: %s) did not come back unchanged"
+                               % case["truth"]["prov"])
     return v
 
 
@@ -268,13 +274,16 @@ def gen_c14(seed, tier, start):
             choices.append("transformOn")
         if not any(x.startswith("single:") for x in f):
             choices.append("enableObjectSlots")
+        if not ({"spread", "attr:repeated", "attrk:directive", "attrk:update"} & f):
+            # no spread, no attribute written twice, no directive that adds a listener of its own
+            choices.append("mergeProps"); choices.append("mergeProps")
         choices.append("customElementPatterns")
         choices.append("resolveType")
         k = choices[rng.below(len(choices))]
         if k == "customElementPatterns":
             a["customElementPatterns"] = list(o.get("customElementPatterns", [])) + ["^zzz-never$"]
         else:
-            dflt = {"transformOn": False, "enableObjectSlots": True, "resolveType": False}[k]
+            dflt = {"transformOn": False, "enableObjectSlots": True, "resolveType": False, "mergeProps": True}[k]
             a[k] = not o.get(k, dflt)
         c["options_alt"] = json.dumps(a); c["feat"] = c["feat"] + ["flip:" + k]
     return out + mods
